@@ -1,7 +1,7 @@
 """Helpers shared by the rule modules."""
 import re
 
-from ..ir import AnalysisBroken, sym_paths
+from ..ir import AnalysisBroken, sym_paths, walk, strip
 
 REG_FIELDS = ("compoActive", "compoRequested", "compoResumable", "compoRemains", "orthoRequested", "compoParents", "orthoParents",
               "orthoUnits", "stateParents", "regionHeads", "regionSizes")
@@ -80,3 +80,202 @@ def prong_origin(ctx, F, rule, table):
                                   {"line": ev[1].get("l"), "found": arg, "expected_field": field, "COMPO_INDEX": ci})
         if n:
             ctx.instance(rule, site, {"function": site, "loc": F.floc(fid), "prong_field": field, "calls_checked": n, "COMPO_INDEX": ci})
+
+
+# ------------------------------------------------------------------------------------------------ propositional normal form of conditions
+# A condition is read as a boolean function of its comparison atoms (&&, ||, !, ?: and a ?: operand of a comparison are structure;
+# everything else is an atom, printed with const / reference locals replaced by their initialisers).  Two conditions are the same iff
+# they have the same relevant atoms and the same truth table - so a De Morgan rewrite, a named temporary or swapped operands do not
+# differ, while `b ? a : c` and `(a && b) || c` do.
+
+def _subst_txt(F, e, defs, depth=0):
+    from .C12 import _expr_txt
+    e = strip(e)
+    if isinstance(e, dict) and e.get("k") == "var" and e.get("d") == "local" and e.get("n") in defs and depth < 8:
+        return _subst_txt(F, defs[e["n"]], defs, depth + 1)
+    if isinstance(e, dict) and e.get("k") in ("bin", "idx", "mem", "un", "call", "cond") and depth < 8:
+        # print children with substitution
+        k = e["k"]
+        if k == "bin":
+            return "(%s%s%s)" % (_subst_txt(F, e["lhs"], defs, depth + 1), e["op"], _subst_txt(F, e["rhs"], defs, depth + 1))
+        if k == "idx":
+            return "%s[%s]" % (_subst_txt(F, e.get("b") or e.get("base") or {}, defs, depth + 1), _subst_txt(F, e.get("i") or e.get("idx") or {}, defs, depth + 1))
+        if k == "mem":
+            b = strip(e.get("b") or {})
+            if b.get("k") == "this" or not b:
+                return e["n"]
+            return "%s.%s" % (_subst_txt(F, b, defs, depth + 1), e["n"])
+        if k == "un":
+            return "%s%s" % (e.get("op"), _subst_txt(F, e["e"], defs, depth + 1))
+    return re.sub(r"\bthis[.>-]+", "", _expr_txt(e))
+
+
+def local_defs(body):
+    """const / reference locals with an initialiser, declared once"""
+    defs, seen = {}, set()
+    for x in walk(body):
+        vs = [x["cvar"]] if x.get("k") == "if" and x.get("cvar") else (x.get("vars", []) if x.get("k") == "decl" else [])
+        for v in vs:
+            n = v.get("n")
+            if not n:
+                continue
+            if n in seen:
+                defs.pop(n, None)
+                continue
+            seen.add(n)
+            if v.get("init") is not None and (v.get("const") or v.get("ref")):
+                defs[n] = v["init"]
+    return defs
+
+
+def bexp(F, e, defs):
+    e = strip(e)
+    if not isinstance(e, dict):
+        return ("atom", "?")
+    k = e.get("k")
+    if k == "var" and e.get("d") == "local" and e.get("n") in defs and e.get("ty") == "bool":
+        return bexp(F, defs[e["n"]], defs)
+    if k == "bin" and e.get("op") in ("&&", "||"):
+        return ("and" if e["op"] == "&&" else "or", bexp(F, e["lhs"], defs), bexp(F, e["rhs"], defs))
+    if k == "un" and e.get("op") == "!":
+        return ("not", bexp(F, e["e"], defs))
+    if k == "cond":
+        return ("ite", bexp(F, e["c"], defs), bexp(F, e["t"], defs), bexp(F, e["f"], defs))
+    if k == "bin" and e.get("op") in ("==", "!=", "<", ">", "<=", ">="):
+        l, r = strip(e["lhs"]), strip(e["rhs"])
+        for side, other, left in ((l, r, True), (r, l, False)):
+            s = side
+            if isinstance(s, dict) and s.get("k") == "var" and s.get("d") == "local" and s.get("n") in defs:
+                s = strip(defs[s["n"]])
+            if isinstance(s, dict) and s.get("k") == "cond":
+                mk = (lambda x: {"k": "bin", "op": e["op"], "lhs": x, "rhs": other}) if left else (lambda x: {"k": "bin", "op": e["op"], "lhs": other, "rhs": x})
+                return ("ite", bexp(F, s["c"], defs), bexp(F, mk(s["t"]), defs), bexp(F, mk(s["f"]), defs))
+        a, b = _subst_txt(F, l, defs), _subst_txt(F, r, defs)
+        op = e["op"]
+        if op in ("==", "!="):
+            a, b = sorted((a, b))
+            at = ("atom", "%s==%s" % (a, b))
+            return at if op == "==" else ("not", at)
+        if op in (">", ">="):                 # a > b == b < a ; a >= b == !(a < b)
+            a, b, op = b, a, {">": "<", ">=": "<="}[op]
+        if op == "<=":                        # a <= b == !(b < a)
+            return ("not", ("atom", "%s<%s" % (b, a)))
+        return ("atom", "%s<%s" % (a, b))
+    return ("atom", _subst_txt(F, e, defs))
+
+
+def _atoms(b, out):
+    if b[0] == "atom":
+        out.add(b[1])
+    else:
+        for x in b[1:]:
+            _atoms(x, out)
+
+
+def _ev(b, env):
+    t = b[0]
+    if t == "atom":
+        return env[b[1]]
+    if t == "not":
+        return not _ev(b[1], env)
+    if t == "and":
+        return _ev(b[1], env) and _ev(b[2], env)
+    if t == "or":
+        return _ev(b[1], env) or _ev(b[2], env)
+    if t == "ite":
+        return _ev(b[2], env) if _ev(b[1], env) else _ev(b[3], env)
+    raise AnalysisBroken("bexp node %s" % t)
+
+
+def truth_table(b):
+    """canonical (relevant atoms, table) of a boolean expression; atoms the value does not depend on are dropped"""
+    at = set()
+    _atoms(b, at)
+    at = sorted(at)
+    if len(at) > 10:
+        raise AnalysisBroken("condition with %d atoms" % len(at))
+    import itertools
+
+    def table(names):
+        return tuple(_ev(b, dict(zip(names, vals), **{n: False for n in at if n not in names})) for vals in itertools.product((False, True), repeat=len(names)))
+    # drop irrelevant atoms
+    rel = []
+    for n in at:
+        dep = False
+        others = [m for m in at if m != n]
+        for vals in itertools.product((False, True), repeat=len(others)):
+            env = dict(zip(others, vals))
+            if _ev(b, dict(env, **{n: False})) != _ev(b, dict(env, **{n: True})):
+                dep = True
+                break
+        if dep:
+            rel.append(n)
+    return tuple(rel), table(rel)
+
+
+def _scoped_conditions(node, env, out):
+    """(condition, defs visible at that point) for every if / loop condition and every ?: of a statement tree; block scoped"""
+    if isinstance(node, list):
+        for x in node:
+            _scoped_conditions(x, env, out)
+        return
+    if not isinstance(node, dict):
+        return
+    k = node.get("k")
+    if k == "seq":
+        env = dict(env)
+        for c in node.get("s", []):
+            _scoped_conditions(c, env, out)      # declarations extend env for the following siblings
+        return
+    if k == "decl":
+        for v in node.get("vars", []):
+            n = v.get("n")
+            if not n:
+                continue
+            if v.get("init") is not None:
+                for x in walk(v["init"]):
+                    if x.get("k") == "cond":
+                        out.append((x["c"], dict(env)))
+            if v.get("init") is not None and (v.get("const") or v.get("ref")):
+                env[n] = v["init"]
+            else:
+                env.pop(n, None)
+        return
+    if k in ("if", "for", "while", "do", "rfor", "switch"):
+        env = dict(env)
+        if node.get("init") is not None:
+            _scoped_conditions(node["init"], env, out)
+        if k == "if" and node.get("cvar"):
+            v = node["cvar"]
+            if v.get("init") is not None and (v.get("const") or v.get("ref")):
+                env[v["n"]] = v["init"]
+        if node.get("c") is not None and k != "switch":
+            out.append((node["c"], dict(env)))
+        for key in ("t", "e", "b"):
+            if isinstance(node.get(key), dict) and node[key].get("k") in ("seq", "if", "for", "while", "do", "rfor", "switch", "decl", "case", "default", "ret", "expr", "label"):
+                _scoped_conditions(node[key], env, out)
+            elif isinstance(node.get(key), dict):
+                for x in walk(node[key]):
+                    if x.get("k") == "cond":
+                        out.append((x["c"], dict(env)))
+        return
+    if k in ("case", "default", "label"):
+        _scoped_conditions(node.get("s"), env, out)
+        return
+    # expression statements, returns: only ?: inside
+    for x in walk(node):
+        if x.get("k") == "cond":
+            out.append((x["c"], dict(env)))
+
+
+def cond_tables(F, fid, mention):
+    """canonical truth tables of every if / loop / ?: condition of `fid` whose atoms mention `mention` (regex)"""
+    b = F.body(fid)
+    conds = []
+    _scoped_conditions(b["body"], {}, conds)
+    out = set()
+    for c, defs in conds:
+        tt = truth_table(bexp(F, c, defs))
+        if any(re.search(mention, a) for a in tt[0]):
+            out.add(tt)
+    return out
